@@ -51,7 +51,13 @@ type input struct {
 	Main  string            `json:"main,omitempty"`  // template file name, or corpus single program file
 	Prog  bool              `json:"prog"`
 	Run   bool              `json:"run"` // generated inputs are safe to run
+	// Natives: "" = all the native packages below, "none" (the sources import nothing), "fmt"
+	// (fmt.Sprintf and fmt.Sprint only): a build spends most of its time on the native packages
+	// it is given, imported or not
+	Natives string `json:"natives,omitempty"`
 }
+
+var fmtOnly = native.Packages{"fmt": native.Package{Name: "fmt", Declarations: native.Declarations{"Sprintf": fmt.Sprintf, "Sprint": fmt.Sprint}}}
 
 func (in *input) fsys() fs.FS {
 	if in.Files != nil {
@@ -121,12 +127,18 @@ type digest struct {
 	UsedVars string `json:"used,omitempty"`
 	Out      string `json:"out,omitempty"`
 	AsmText  string `json:"text,omitempty"` // only filled when C30_TEXT is set (history checks)
+	OutText  string `json:"outtext,omitempty"`
 	asmText  string
+	outText  string
 }
 
 func (d digest) key() string { return d.Err + "|" + d.Asm + "|" + d.UsedVars + "|" + d.Out }
 
 var importRe = regexp.MustCompile(`"([a-zA-Z0-9_./-]+)"`)
+
+// addresses printed by a run (a value of a defined type reaches Print wrapped in a struct with
+// pointers) are not part of what must coincide
+var addrRe = regexp.MustCompile(`0x[0-9a-f]{6,}`)
 
 func buildOnce(in *input) (d digest) {
 	defer func() {
@@ -135,7 +147,14 @@ func buildOnce(in *input) (d digest) {
 		}
 	}()
 	if in.Prog {
-		p, err := scriggo.Build(in.fsys(), &scriggo.BuildOptions{Packages: packages, AllowGoStmt: true})
+		pkgs := packages
+		switch in.Natives {
+		case "none":
+			pkgs = nil
+		case "fmt":
+			pkgs = fmtOnly
+		}
+		p, err := scriggo.Build(in.fsys(), &scriggo.BuildOptions{Packages: pkgs, AllowGoStmt: true})
 		if err != nil {
 			return digest{Err: "error: " + err.Error()}
 		}
@@ -169,7 +188,8 @@ func buildOnce(in *input) (d digest) {
 			if err != nil {
 				fmt.Fprintf(&out, "\nrun error: %v", err)
 			}
-			d.Out = fmt.Sprintf("%x", sha256.Sum256(out.Bytes()))[:16]
+			d.outText = addrRe.ReplaceAllString(out.String(), "0xADDR")
+			d.Out = fmt.Sprintf("%x", sha256.Sum256([]byte(d.outText)))[:16]
 		}
 		return d
 	}
@@ -211,6 +231,7 @@ func childMain(file string) {
 		out[i] = buildOnce(in)
 		if len(ins) <= 8 {
 			out[i].AsmText = out[i].asmText
+			out[i].OutText = out[i].outText
 		}
 	}
 	json.NewEncoder(os.Stdout).Encode(out)
@@ -353,7 +374,7 @@ func freshSequence(seq []*input) ([]digest, error) {
 		return nil, err
 	}
 	cmd := exec.Command(self)
-	cmd.Env = append(os.Environ(), "C30_CHILD="+file)
+	cmd.Env = append(os.Environ(), "C30_CHILD="+file, "GOMAXPROCS=2")
 	cmd.Stderr = os.Stderr
 	out, err := cmd.Output()
 	if err != nil {
@@ -390,6 +411,32 @@ func pollutesBool(b *input) bool {
 }
 
 var boolRe = regexp.MustCompile(`\b(true|false)\b`)
+
+// sourcesOf returns the source texts of an input.
+func sourcesOf(in *input) []string {
+	var out []string
+	if in.Files != nil {
+		for _, k := range func() []string {
+			var ks []string
+			for k := range in.Files {
+				ks = append(ks, k)
+			}
+			sort.Strings(ks)
+			return ks
+		}() {
+			out = append(out, in.Files[k])
+		}
+		return out
+	}
+	filepath.WalkDir(in.Dir, func(path string, d fs.DirEntry, err error) error {
+		if err == nil && !d.IsDir() && (in.Main == "" || !in.Prog || filepath.Base(path) == in.Main) {
+			src, _ := os.ReadFile(path)
+			out = append(out, string(src))
+		}
+		return nil
+	})
+	return out
+}
 
 func mentionsBool(in *input) bool {
 	if in.Files != nil {
@@ -560,11 +607,27 @@ func run(c *hx.Ctx) error {
 		}
 	}
 
+	// C30_ONLY=<stream>[,<stream>…] (development aid): run only the named streams of
+	// corpus (corpus + generated inputs, in process, history triples, child processes), decl, rebuild
+	want := func(stream string) bool {
+		only := os.Getenv("C30_ONLY")
+		return only == "" || strings.Contains(","+only+",", ","+stream+",")
+	}
+
+	// the rebuild family runs in child processes beside the streams below
+	var finishRebuild func(bool) error
+	if want("rebuild") {
+		finishRebuild = rebuildStream(c)
+	}
+
 	// inputs
 	var ins []*input
 	all := corpus()
 	if len(all) < 500 {
 		return fmt.Errorf("corpus not found under %s", repoRoot())
+	}
+	if !want("corpus") {
+		all = nil
 	}
 	var progs []*input
 	for _, in := range all {
@@ -579,8 +642,10 @@ func run(c *hx.Ctx) error {
 		progs[i], progs[j] = progs[j], progs[i]
 	}
 	ins = append(ins, progs[:min(len(progs), c.N(300, len(progs)))]...)
-	res.Sample(map[string]string{"first sampled corpus programs": progs[0].Name + " " + progs[1].Name + " " + progs[2].Name})
-	for i := 0; i < c.N(300, 6000); i++ {
+	if len(progs) > 2 {
+		res.Sample(map[string]string{"first sampled corpus programs": progs[0].Name + " " + progs[1].Name + " " + progs[2].Name})
+	}
+	for i := 0; i < c.N(300, 6000) && want("corpus"); i++ {
 		g := &gen{r: c.R}
 		if i%3 == 2 {
 			files, main := g.templateFS()
@@ -650,8 +715,30 @@ func run(c *hx.Ctx) error {
 		}
 	}
 
+	// packages whose declarations have to be ordered (forward references, blank declarations)
+	if want("decl") {
+		// finding dup-name-loop-report: its recorded package is replayed; the class explains
+		// something only while that still fails
+		dupActive := false
+		for _, f := range c.Findings {
+			if f.ID != "dup-name-loop-report" {
+				continue
+			}
+			in := &input{Name: "finding " + f.ID, Files: map[string]string{"main.go": f.Minimal}, Prog: true, Natives: "none"}
+			if ds := distinctBuilds(in, 400); len(ds) > 1 {
+				dupActive = true
+				res.AddBreak(proto.Break{Kind: "property", Name: clause(ds[0], ds[1]), Case: "400 builds of one source in one process", Human: f.Minimal,
+					Impl: fmt.Sprintf("%d different results; two of them: %q vs %q", len(ds), ds[0].Err, ds[1].Err), Model: "one result", Finding: f.ID})
+			}
+		}
+		if err := declStream(c, dupActive, report); err != nil {
+			return err
+		}
+	}
+
 	// history: building something else in between must not change what a build gives
 	type pairT struct{ A, B string }
+	findingFails := map[string]bool{} // a finding whose recorded history no longer fails explains nothing
 	for _, f := range c.Findings {
 		var pr pairT
 		if json.Unmarshal([]byte(f.Minimal), &pr) != nil || pr.A == "" {
@@ -660,8 +747,14 @@ func run(c *hx.Ctx) error {
 		a := &input{Name: "finding " + f.ID + " A", Files: map[string]string{"main.go": pr.A}, Prog: true, Run: true}
 		b := &input{Name: "finding " + f.ID + " B", Files: map[string]string{"main.go": pr.B}, Prog: true, Run: true}
 		if differs, d1, d2 := historyDiffers(a, b); differs {
+			findingFails[f.ID] = true
 			res.AddBreak(proto.Break{Kind: "property", Name: "history-dependent-build", Case: "build A, build B, build A in one process", Human: "--- A ---\n" + pr.A + "\n--- B ---\n" + pr.B,
 				Impl: firstDiffLine(d1.AsmText, d2.AsmText), Model: "the two builds of A coincide", Finding: f.ID})
+		}
+	}
+	if finishRebuild != nil {
+		if err := finishRebuild(findingFails["history-universe-bool-rebuild"]); err != nil {
+			return err
 		}
 	}
 	var cand []int
@@ -716,8 +809,11 @@ func run(c *hx.Ctx) error {
 			continue
 		}
 		// known finding history-universe-bool: B leaves the predeclared true / false with a type
-		// of its own (seen on the sentinel) and A mentions them
-		if c.HasFinding("history-universe-bool") && mentionsBool(t.a) && pollutesBool(t.b) {
+		// of its own. Attributed by its effect: A mentions true / false, both builds of A succeed and
+		// their disassemblies differ only in that instructions name a type B defines on bool where
+		// the first build names bool
+		if findingFails["history-universe-bool"] && t.d1.Err == "" && t.d2.Err == "" && mentionsBool(t.a) &&
+			onlyBoolTypeNames(t.d1.AsmText, t.d2.AsmText, boolTypes(append(sourcesOf(t.a), sourcesOf(t.b)...)...)) {
 			res.Hist("history-triples-matching-known-finding")
 			continue
 		}
